@@ -718,6 +718,8 @@ class STRINGI(StringDataType):
             for (string, str_type, lang, char_set) in strings:
                 _str_type = bytes([str_type.code])
                 _lang = bytes(lang, "ascii")
+                if len(_lang) != 3:
+                    raise DataError(f"Language code must be 3 characters: {lang!r}")
                 _char_set = UINT.encode(char_set)
                 _string = str_type.encode(string)
 
@@ -733,8 +735,9 @@ class STRINGI(StringDataType):
     def decode(
         cls, buffer: _BufferType
     ) -> Tuple[Sequence[str], Sequence[str], Sequence[int]]:
-        stream = _as_stream(buffer)
         try:
+            stream = _as_stream(buffer)
+            start = stream.tell()
             count = USINT.decode(stream)
             strings = []
             langs = []
@@ -750,7 +753,7 @@ class STRINGI(StringDataType):
 
             return strings, langs, char_sets
         except Exception as err:
-            if isinstance(err, BufferEmptyError):
+            if isinstance(err, BufferEmptyError) and stream.tell() == start:
                 raise
             else:
                 raise DataError(
